@@ -66,9 +66,11 @@ fn spline_case<N: Scalar>(case: &Value) -> Value {
             for q in jfv(&case["probe"]) {
                 let v = s.evaluate(q);
                 let d = s.evaluate_derivative(q);
+                // (okv / okd: the two entry points, evaluate and evaluate_derivative, each on its own)
+                let (okv, okd) = (v.is_ok(), d.is_ok());
                 pts.push(match (v, d) {
-                    (Ok(v), Ok((v2, d))) => json!({"x": fj(q), "ok": true, "v": cj(v.to_c()), "v2": cj(v2.to_c()), "d": cj(d.to_c())}),
-                    _ => json!({"x": fj(q), "ok": false, "v": cj(C64::new(0.0, 0.0)), "v2": cj(C64::new(0.0, 0.0)), "d": cj(C64::new(0.0, 0.0))}),
+                    (Ok(v), Ok((v2, d))) => json!({"x": fj(q), "ok": true, "okv": true, "okd": true, "v": cj(v.to_c()), "v2": cj(v2.to_c()), "d": cj(d.to_c())}),
+                    _ => json!({"x": fj(q), "ok": false, "okv": okv, "okd": okd, "v": cj(C64::new(0.0, 0.0)), "v2": cj(C64::new(0.0, 0.0)), "d": cj(C64::new(0.0, 0.0))}),
                 });
             }
             json!({"st": "ok", "pts": pts})
